@@ -2,6 +2,7 @@
 package main
 
 import (
+	"context"
 	"fmt"
 	"strings"
 	"time"
@@ -30,6 +31,8 @@ type tracker struct {
 	keys              []*trackedKey
 	wrapKeys          bool
 	keyPanic          string // "CSRs" | "AddCertsToAgent"
+	cancelIn          string // "Authenticate" | "Generate": the request context ends while this method runs
+	cancel            func()
 }
 
 func (t *tracker) Name() string {
@@ -43,6 +46,9 @@ func (t *tracker) Authenticate(p *csr.ReqParam) error {
 		panic("scripted panic in Authenticate")
 	}
 	err := t.inner.Authenticate(p)
+	if t.cancelIn == "Authenticate" {
+		t.cancel()
+	}
 	t.authEnd = t.ag.NumRequests()
 	return err
 }
@@ -55,6 +61,9 @@ func (t *tracker) Generate(p *csr.ReqParam) ([]csr.AgentKey, error) {
 		return nil, nil
 	}
 	ks, err := t.inner.Generate(p)
+	if t.cancelIn == "Generate" {
+		t.cancel()
+	}
 	t.genEnd = t.ag.NumRequests()
 	var out []csr.AgentKey
 	for _, k := range ks {
@@ -290,18 +299,53 @@ func main() {
 			}
 			// signer faults
 			for j := 0; j < S; j++ {
-				for _, f := range []string{"error", "panic"} {
+				for _, f := range []string{"error", "panic", "other-key"} {
 					c := r.Case("fault", idx)
 					idx++
 					if c == nil {
 						continue
 					}
 					rec := faultRec{Shape: sh, Fault: "signer-" + f, At: j, Stage: "signer", Frames: N, Signs: S}
-					if f == "panic" {
+					switch f {
+					case "panic":
 						rec.Stage = "panic"
+					case "other-key":
+						// the CA answers without error but its last certificate is issued for another key
+						rec.Stage = "misissue"
 					}
 					judge(r, c, e, sh, rec, func(ag *wire.Agent, tr *tracker, s *gsrig.Signer) { s.Fault = map[int]string{j: f} })
 				}
+			}
+			// the request context ends (deadline, client gone) before a signer call: the context-aware CA
+			// client fails that call, which is a CA failure like any other
+			ctxFaults := []string{"context-ends-before-run", "context-ends-in-Authenticate", "context-ends-in-Generate"}
+			for j := 0; j+1 < S; j++ {
+				ctxFaults = append(ctxFaults, fmt.Sprintf("context-ends-after-signer-call-%d", j))
+			}
+			for _, f := range ctxFaults {
+				c := r.Case("fault", idx)
+				idx++
+				if c == nil {
+					continue
+				}
+				rec := faultRec{Shape: sh, Fault: f, Stage: "signer", Frames: N, Signs: S}
+				judge(r, c, e, sh, rec, func(ag *wire.Agent, tr *tracker, s *gsrig.Signer) {
+					s.CtxAware = true
+					switch {
+					case strings.HasSuffix(f, "Authenticate"):
+						tr.cancelIn = "Authenticate"
+					case strings.HasSuffix(f, "Generate"):
+						tr.cancelIn = "Generate"
+					case strings.HasPrefix(f, "context-ends-after-signer-call-"):
+						var at int
+						fmt.Sscanf(f, "context-ends-after-signer-call-%d", &at)
+						s.After = func(i int) {
+							if i == at {
+								tr.cancel()
+							}
+						}
+					}
+				})
 			}
 			// panics in handler / agent-key methods, empty and failing Generate
 			for _, m := range []string{"Name", "Authenticate", "Generate", "CSRs", "AddCertsToAgent", "empty-generate", "failing-generate"} {
@@ -389,9 +433,15 @@ func judge(r *ev.Run, c *ev.Case, e *env, sh shape, rec faultRec, inject func(*w
 		r.Inconclusive("rig: " + err.Error())
 		return
 	}
+	ctx, cancel := context.WithTimeout(context.Background(), 30*time.Second)
+	defer cancel()
+	tr.cancel = cancel
 	inject(ag, tr, signer)
+	if rec.Fault == "context-ends-before-run" {
+		cancel()
+	}
 	r.Eval(1)
-	runErr, escaped := gsrig.Run(param(), []gensign.Handler{tr}, signer)
+	runErr, escaped := gsrig.RunCtx(ctx, param(), []gensign.Handler{tr}, signer)
 	rec.Result = gsrig.Kind(runErr)
 	sig := fmt.Sprintf("%s@%s", rec.Fault, rec.Stage)
 	if escaped != "" {
@@ -418,9 +468,24 @@ func judge(r *ev.Run, c *ev.Case, e *env, sh shape, rec faultRec, inject func(*w
 		}
 	}
 	// was the fault reached at all? (a fault index beyond the point where the run legitimately ended cannot happen: single fault, same prefix)
+	if rec.Stage == "misissue" {
+		// not every returned certificate can have been handed to the agent usefully; whatever the run does
+		// with such a reply, success may be reported only if every returned certificate is in the agent
+		if runErr == nil {
+			if !delivered(r, c, ag, tr, signer, sh, "certificate for another key returned by the CA") {
+				return
+			}
+		} else if _, typed := gensign.IsError(runErr); !typed {
+			r.Violation(c, "untyped-error:"+sig, fmt.Sprintf("%T %v", runErr, runErr), rec)
+			return
+		}
+		r.Count("runs with a certificate issued for another key judged", 1)
+		r.Nontrivial(fmt.Sprintf("%+v|%s|%d", sh, rec.Fault, rec.At))
+		return
+	}
 	if runErr == nil {
 		// nil is acceptable only if the fault had no bearing and everything was delivered
-		if rec.Fault == "garbage" || rec.Fault == "failure" || rec.Fault == "wrong-type" || rec.Fault == "close" || rec.Fault == "oversized" || rec.Fault == "truncated" || strings.HasPrefix(rec.Fault, "signer-") || strings.HasPrefix(rec.Fault, "panic-in-") || rec.Fault == "empty-generate" || rec.Fault == "failing-generate" {
+		if rec.Fault == "garbage" || rec.Fault == "failure" || rec.Fault == "wrong-type" || rec.Fault == "close" || rec.Fault == "oversized" || rec.Fault == "truncated" || strings.HasPrefix(rec.Fault, "signer-") || strings.HasPrefix(rec.Fault, "context-ends-") || strings.HasPrefix(rec.Fault, "panic-in-") || rec.Fault == "empty-generate" || rec.Fault == "failing-generate" {
 			r.Violation(c, "fault-ends-in-success:"+sig, fmt.Sprintf("Run returned nil although %s was injected at index %d (%s stage)", rec.Fault, rec.At, rec.Stage), rec)
 			return
 		}
